@@ -127,8 +127,9 @@ Definition get_slice_number (results : list str) : outcome Z :=
       match parse_int64 v with Some z => Ok z | None => Err end)
   else Err.
 
+(* a start further left than the array is long is clamped to 0 (fix cbdb35c) *)
 Definition slice_rel_first (len first : Z) : Z :=
-  if (first <? 0)%Z then (len + first)%Z else first.
+  if (first <? 0)%Z then Z.max 0 (len + first)%Z else first.
 
 Definition slice_rel_second (len second : Z) : Z :=
   if (second <? 0)%Z then (len + second)%Z
@@ -150,21 +151,18 @@ Definition slice_array {A} (content : list A) (first second : Z) : outcome (list
   let rs := slice_rel_second len second in
   slice_loop (Z.to_nat (rs - rf)) rf content.
 
-(* the same function with the trip count capped at len+1 (an access must have
-   failed by then): identical results (BoundsProofs.slice_array_exec_eq), but
-   computable when the bounds are near the int64 limits *)
+(* the same function with the trip count capped at len+1: identical results
+   (BoundsProofs.slice_array_exec_eq), but computable when the bounds are near
+   the int64 limits *)
 Definition slice_array_exec {A} (content : list A) (first second : Z) : outcome (list A) :=
   let len := Z.of_nat (length content) in
   let rf := slice_rel_first len first in
   let rs := slice_rel_second len second in
   slice_loop (Z.to_nat (Z.min (rs - rf) (len + 1))) rf content.
 
-(* exact complement of the panic condition *)
-Definition slice_guard (len first second : Z) : Prop :=
-  (0 <= slice_rel_first len first \/ slice_rel_second len second <= slice_rel_first len first)%Z.
-
-Definition slice_guardb (len first second : Z) : bool :=
-  (0 <=? slice_rel_first len first)%Z || (slice_rel_second len second <=? slice_rel_first len first)%Z.
+(* sliceArrayOperator on a node: slicing a map is an error (fix ed8fc74) *)
+Definition slice_node {A} (is_map : bool) (content : list A) (first second : Z) : outcome (list A) :=
+  if is_map then Err else slice_array content first second.
 
 (* ------------------------------------------------------------------ *)
 (* operator_traverse_path.go traverseArrayWithIndices (one index)       *)
@@ -173,7 +171,11 @@ Definition slice_guardb (len first second : Z) : bool :=
    pad_count times; its result is the content followed by that many nulls. *)
 Definition pad_count (len index : Z) : nat := Z.to_nat (index + 1 - len).
 
+Definition pad_limit : Z := 1000000%Z.
+
+(* an index pad_limit or more places beyond the end is an error (fix abd2cdf) *)
 Definition traverse_index {A} (null : A) (content : list A) (index : Z) : outcome (A * list A) :=
+  if (index - Z.of_nat (length content) >=? pad_limit)%Z then Err else
   let padded := content ++ repeat null (pad_count (Z.of_nat (length content)) index) in
   let clen := Z.of_nat (length padded) in
   let use := if (index <? 0)%Z then (clen + index)%Z else index in
@@ -222,10 +224,14 @@ Fixpoint rotate_cols {A} (cands : list (list A)) (n : nat) (i : Z) : outcome (li
         obind (rotate_cols cands n' (i + 1)%Z) (fun r => Ok (col :: r)))
   end.
 
+(* since fix 8c76b15 an entry with fewer children than the first one is an error *)
 Definition rotate {A} (cands : list (list A)) : outcome (list (list A)) :=
   match cands with
   | [] => Ok []                      (* Len()==0 is tested before Front() *)
-  | first :: _ => rotate_cols cands (length first) 0%Z
+  | first :: _ =>
+      if forallb (fun c => (length first <=? length c)%nat) cands
+      then rotate_cols cands (length first) 0%Z
+      else Err
   end.
 
 Definition rotate_guard {A} (cands : list (list A)) : Prop :=
@@ -238,6 +244,7 @@ Definition rotate_guard {A} (cands : list (list A)) : Prop :=
 (* operator_multiply.go repeatString                                    *)
 (* ------------------------------------------------------------------ *)
 Definition repeat_limit : Z := 10000000%Z.
+Definition repeat_bytes_limit : Z := 100000000%Z.
 
 (* mem: the largest block the allocator can hand out.  strings.Repeat
    allocates len*count bytes at once; an allocation failure is a fatal
@@ -245,6 +252,7 @@ Definition repeat_limit : Z := 10000000%Z.
 Definition repeat_string (mem : Z) (slen count : Z) : outcome Z :=
   if (count <? 0)%Z then Err
   else if (count >? repeat_limit)%Z then Err
+  else if (0 <? count)%Z && (slen >? repeat_bytes_limit / count)%Z then Err   (* fix e5c76bb *)
   else if (slen * count >? mem)%Z then Panic RepeatAlloc
   else Ok (slen * count)%Z.
 
